@@ -130,6 +130,14 @@ class C10(core.Check):
             ("cliw", "client", True, [("svc",), ("rst",), ("svc",), ("svc",)], [], [("d", b"ab"), ("f", T.EAGAIN), ("d", b"cd"), ("f", errno.ECONNRESET)]),
             ("cliw", "clienttls", True, [("tx", b"xy"), ("rst",), ("svc",), ("svc",)], [("acc", 1), ("acc", 1)], [("d", b"q"), ("f", T.SSLEOF)]),
             ("realrst", 5), ("realrst", 70000),
+            # the connect call itself reports a connection-level fault: not connected, no exception, try again
+            ("site", "client_connect", errno.ENETUNREACH), ("site", "client_connect", errno.ETIMEDOUT), ("site", "client_connect", errno.ECONNREFUSED),
+            ("clic", False, False, 0, [("connect", errno.EHOSTUNREACH, None), ("connect", errno.ECONNRESET, None), ("connect", 0, None)]),
+            ("clic", True, True, 2, [("connect", errno.ENETDOWN, None), ("tick", 2), ("connect", errno.ETIMEDOUT, None), ("connect", 0, ("ok",))]),
+            # a reset-before-accept arrival from an address that still has a live connection
+            ("srv", False, [("conn", 1, [("acc", 9)], [("d", b"hi")], []), ("svc",), ("dconn", 1), ("svc",), ("tx", 1, b"x"), ("svc",)]),
+            ("srv", True, [("conn", 1, [], [("d", b"hi")], [("ok",)]), ("svc",), ("dconn", 1), ("svc",), ("svc",)]),
+            ("realsrv", False, "rst", -2, 2), ("realsrv", True, "rst", -2, 1),
             # a handshake that fails, then MORE passes: the client must start over, not trip over its own state
             ("clic", True, False, 0, [("connect", 0, ("f", errno.ECONNRESET)), ("connect", 0, None), ("connect", 0, ("ok",))]),
             ("clic", True, True, 2, [("connect", 0, ("f", T.WANT_READ)), ("connect", 0, ("f", T.SSLEOF)), ("tick", 2), ("connect", errno.EINPROGRESS, None), ("connect", 0, ("ok",))]),
@@ -140,6 +148,10 @@ class C10(core.Check):
             ("srv", False, [("conn", 1, [("acc", 3)], [("d", b"hi")], []), ("conn", 2, [("f", errno.EPIPE)], [("d", b"yo")], []), ("svc",),
                             ("tx", 1, b"abcdef"), ("tx", 2, b"zz"), ("svc",), ("svc",)]),
             ("srv", False, [("conn", 1, [], [("f", errno.EBADF)], []), ("conn", 2, [("acc", 9)], [("d", b"yo")], []), ("svc",), ("tx", 2, b"q"), ("svc",)]),
+            # the echo doer: a peer sends its last message and closes at once (data and EOF seen in the same pass), another resets
+            ("srv", False, [("conn", 1, [("acc", 9)], [("d", b"bye"), ("d", b"")], []), ("conn", 2, [("acc", 9)], [("d", b"hi"), ("f", errno.ECONNRESET)], []),
+                            ("conn", 3, [("acc", 2), ("acc", 9)], [("d", b"abc")], []), ("svc",), ("svc",), ("svc",)], "echo"),
+            ("srv", True, [("conn", 1, [("acc", 9)], [("d", b"bye"), ("d", b"")], [("ok",)]), ("conn", 2, [], [("d", b"x")], [("ok",)]), ("svc",), ("svc",), ("svc",)], "echo"),
             # re-use: connections open at close(), then reopen() and service() again (ServerDoer run twice)
             ("srv", False, [("conn", 1, [], [("d", b"hi")], []), ("svc",), ("close",), ("reopen",), ("svc",), ("conn", 2, [("acc", 9)], [("d", b"yo")], []), ("svc",)]),
             ("srv", True, [("conn", 1, [], [], [("ok",)]), ("conn", 2, [], [], []), ("svc",), ("close",), ("reopen",), ("svc",), ("svc",)], "doer"),
@@ -152,6 +164,15 @@ class C10(core.Check):
 
     def exhaustive(self, tier):
         cs = [("site", s, c) for s in T.SITES for c in T.ALL_CODES]
+        cs += [("site", "client_connect", c) for c in [0] + T.ERRNOS]
+        # a reset-before-accept arrival from an address that is already connected (plain and TLS), at every point of an exchange
+        for tls in (False, True):
+            hs = [("ok",)] if tls else []
+            for k in range(4):
+                ops = [("conn", 1, [("acc", 9)], [("d", b"a1"), ("f", T.wouldblock_codes("remotertls" if tls else "remoter")[0]), ("d", b"a2")], hs),
+                       ("conn", 2, [("acc", 9)], [("d", b"b1")], hs), ("svc",), ("tx", 1, b"xy"), ("svc",), ("svc",), ("svc",)]
+                ops.insert(2 + k, ("dconn", 1))
+                cs.append(("srv", tls, ops))
         for tls in (False, True):
             kind = "remotertls" if tls else "remoter"
             codes = T.conn_fault_codes(kind) + [errno.ENOTCONN, errno.ECONNABORTED, errno.EBADF]   # listed ones and a few the code re-raises
@@ -160,13 +181,20 @@ class C10(core.Check):
             for pos in poss:
                 for code in codes:
                     cs.append(self._exchange(tls, pos, code))
+                    if code in (errno.ECONNRESET, T.EPIPE) or pos[1] == "h":
+                        cs.append(self._exchange(tls, pos, code) + ("echo",))    # the same through EchoServerDoer.recur
+            # data and then EOF in one pass, on either connection, under the echo doer
+            for i in (1, 2):
+                ops = [("conn", 1, [("acc", 9)], [("d", b"m1")] + ([("d", b"")] if i == 1 else []), [("ok",)] if tls else []),
+                       ("conn", 2, [("acc", 9)], [("d", b"m2")] + ([("d", b"")] if i == 2 else []), [("ok",)] if tls else []), ("svc",), ("svc",), ("svc",)]
+                cs.append(("srv", tls, ops, "echo"))
         return cs, "all 10 sites x every errno in errno.errorcode and 7 ssl error classes; every fault position (recv/send/handshake call index, either connection, one receive chunk per service pass so that later positions meet queued output) of a fixed two-connection exchange x every connection-level code + ENOTCONN/ECONNABORTED/EBADF, plain and TLS"
 
     def generate(self, rng, n, tier):
         for _ in range(4 if tier == "quick" else 100):
             yield ("realrst", rng.choice([1, 5, 1000, 70000]))
         for _ in range(8 if tier == "quick" else 200):
-            yield ("realsrv", rng.random() < 0.35, rng.choice(["rst", "fin"]), rng.randrange(-1, 5), rng.randrange(1, 6))
+            yield ("realsrv", rng.random() < 0.35, rng.choice(["rst", "fin"]), rng.randrange(-2, 5), rng.randrange(1, 6))
         for _ in range(n):
             r = rng.random()
             if r < 0.55:
@@ -177,7 +205,7 @@ class C10(core.Check):
                 elif v < 0.8:
                     yield ("srv", tls, T.gen_server_ops(rng, tls, "fault", tier))
                 else:
-                    yield ("srv", tls, T.gen_server_ops(rng, tls, "fault", tier), "doer" if v < 0.9 else "ctx")
+                    yield ("srv", tls, T.gen_server_ops(rng, tls, "fault", tier), "doer" if v < 0.87 else "echo" if v < 0.95 else "ctx")
             elif r < 0.85:
                 kind = rng.choice(["client", "clienttls", "client", "clienttls", "remoter", "remotertls"])
                 ops = []
@@ -215,7 +243,7 @@ class C10(core.Check):
                         if tls and rng.random() < 0.85:
                             hs = rng.choice([("ok",), ("f", T.WANT_READ), ("f", T.WANT_WRITE), ("f", rng.choice(T.conn_fault_codes("clienttls") + HS_EXTRA)),
                                              ("f", rng.choice(T.conn_fault_codes("clienttls") + HS_EXTRA)), ("f", rng.choice(T.ALL_CODES))])
-                        ops.append(("connect", rng.choice([0, 0, 0, errno.EINPROGRESS, errno.ECONNREFUSED, errno.EISCONN]), hs))
+                        ops.append(("connect", rng.choice([0, 0, 0, errno.EINPROGRESS, errno.ECONNREFUSED, errno.EISCONN] + T.CONN_FAULTS), hs))
                 yield ("clic", tls, rng.random() < 0.5, tmo, ops)
             else:
                 yield ("site", rng.choice(T.SITES), rng.choice(T.ALL_CODES))
@@ -233,7 +261,8 @@ class C10(core.Check):
             _, tls, recon, tmo, cops = case
             return ("cli", bool(tls), bool(recon), tmo, [("connect", o[1], tuple(o[2]) if o[2] is not None else None) if o[0] == "connect" else tuple(o) for o in cops])
         tls, ops = case[1], case[2]
-        return ("server", bool(tls), T.request_server(list(ops) + ([("close",)] if len(case) > 3 and case[3] == "ctx" else [])))
+        via = case[3] if len(case) > 3 else "direct"
+        return ("server", bool(tls), T.request_server(list(ops) + ([("close",)] if via == "ctx" else []), via))
 
     def run_impl(self, case):
         k = case[0]
@@ -241,6 +270,8 @@ class C10(core.Check):
             return T.run_real_faults(case)
         if k == "realrst":
             return T.run_real_client_rst(case)
+        if k == "site" and case[1] == "client_connect":
+            return ("outcome", T.CONNECT_NAMES[T.probe_connect(case[2])])
         if k == "site":
             return ("outcome", T.OUT_NAMES[T.probe(case[1], case[2])])
         if k in ("cli", "cliw"):
@@ -282,12 +313,22 @@ class C10(core.Check):
         if k == "clic":
             # connect / handshake passes of a client never raise when every handshake fault is a connection-level one
             codes = {o[2][1] for o in case[4] if o[0] == "connect" and o[2] is not None and o[2][0] == "f"}
-            if codes <= _hs_allowed() and any(st[0] != "ok" for st in obs):
+            rcs = {o[1] for o in case[4] if o[0] == "connect"}
+            rc_ok = set(T.CONN_FAULTS) | {0, errno.EISCONN, errno.EINPROGRESS, errno.EALREADY, errno.EAGAIN, errno.EINVAL}
+            if codes <= _hs_allowed() and rcs <= rc_ok and any(st[0] != "ok" for st in obs):
                 return ["service-raised"]
             return []
         hard = set(_hard_codes(case))
         tag = ":epipe-only" if hard == {T.EPIPE} else ""
         bad = []
+        if k == "site" and case[1] == "client_connect":
+            code, out = case[2], obs[1]
+            if code in (0, errno.EISCONN):
+                return [] if out == "connected" else ["connect-result-misclassified"]
+            if code in T.CONN_FAULTS or code in (errno.EINPROGRESS, errno.EALREADY, errno.EAGAIN):
+                # a failing or pending connect is neither an exception nor a connection
+                return [] if out in ("retry", "reopen") else ["connect-fault-" + ("raised" if out.startswith("raised") else "taken-for-connected")]
+            return []
         if k == "site":
             kind, what = case[1].split("_")
             code = case[2]
@@ -318,6 +359,8 @@ class C10(core.Check):
         tls, ops = case[1], case[2]
         kind = "remotertls" if tls else "remoter"
         (st0, steps), ref = obs
+        if any(o[0] == "afault" for o in ops):
+            return []    # accept() failing (EMFILE ...) is a resource error of the listener that serviceAccepts re-raises by design
         if any(o[0] in ("close", "reopen", "reopenf", "closeix", "closeall") for o in ops):
             # re-use: a server that was closed and re-opened is serviceable again (explicit closeIx/closeAllIx leave closed
             # remoters in the table on purpose and are not judged here)
@@ -412,7 +455,7 @@ class C10(core.Check):
         if case[0] == "cliw":
             f += ["wl" if case[2] else "nowl"] + (["peer-reset"] if any(o[0] == "rst" for o in case[3]) else [])
         if case[0] == "site":
-            f.append("site:" + obs[1])
+            f.append(("connect-site:" if case[1] == "client_connect" else "site:") + obs[1])
             return f
         hard = _hard_codes(case)
         f.append("hard:%d" % min(3, len(hard)))
